@@ -71,7 +71,12 @@ var properties = []Property{
 		LevelText:  "Table agreement (name → denoted host function, name → accepted argument counts) plus exhaustive abstract interpretation over the argument count for all registered calculators: a deviation is a function that computes something else than its name, accepts a wrong count, or reads a missing argument.",
 		LevelNote:  "Trusted: go/ssa; math/time/rand semantics. The denotation table is written from the statement and confirmed by reading.",
 	},
-	 {ID: "C09"}, {ID: "C10"},
+	 
+	{ID: "C09", Title: "CSV text round-trips through the tokenizer for any table and configuration",
+		Rules:     []string{"CSV.route", "CODEC.pair", "CODEC.reader", "DIM.runes", "OPT.chain", "OPT.nointerference", "SCAN.balance", "SCAN.symbol", "MAP.flow", "MAP.order", "MAP.split", "MAP.disable"},
+		Technique: "registration-sequence extraction of the CSV state table and its mirror in the word state, codec pair agreement, main-loop model, abstract interpretation of the CSV states",
+	},
+	 {ID: "C10"},
 	
 	{ID: "C11", Title: "The string scanner is a faithful cursor with position-only line/column",
 		Rules:     []string{"CUR.linerule", "CUR.range", "CUR.pure", "CUR.siblings", "CUR.unread", "PANIC.index"},
@@ -82,7 +87,12 @@ var properties = []Property{
 		Rules:     []string{"POS.capture", "POS.stale", "CUR.siblings", "CUR.unread", "CUR.linerule"},
 		Technique: "same abstract interpretation: where, relative to the first Read, each state samples Line/Column/PeekLine/PeekColumn",
 	},
-	 {ID: "C13"}, {ID: "C14"}, 
+	 {ID: "C13"}, 
+	{ID: "C14", Title: "Quote encoding and decoding are inverse and total for all Unicode text",
+		Rules:     []string{"CODEC.pair", "CODEC.reader", "DIM.runes", "PANIC.index", "SCAN.balance"},
+		Technique: "normalised SSA expressions of the encode/decode pair (mirror-image check), guard extraction, byte/rune dimension rule, bounds prover, abstract interpretation of the quote readers",
+	},
+	 
 	{ID: "C15", Title: "Tokenizer options only drop or rewrite whole tokens, never re-segment",
 		Rules:     []string{"OPT.chain", "OPT.nointerference", "PANIC.progress", "POS.stale"},
 		Technique: "exhaustive abstract evaluation of one loop iteration over the finite partition (token class × state kind × last type × 2^7 option sets); information-flow check from options to scanner movement",
